@@ -65,6 +65,32 @@ impl NetCtx {
         NetCtx { b, user, mini, labels, label_desc: label_desc.to_string(), sets, props, canon, canon_col_vals }
     }
 
+    /// Same network, other interpretation of the labels; `sets` must be the symbolic versions of
+    /// the masks (wild labels first, then domain labels), built once by the caller.
+    pub fn relabel(&self, labels: Labels, desc: &str, sets: Vec<GraphColoredVertices>) -> NetCtx {
+        let mut m = HashMap::new();
+        let mut it = sets.into_iter();
+        for i in 0..labels.wild.len() {
+            m.insert(self.user.wilds[i].clone(), it.next().expect("set for wild label"));
+        }
+        for i in 0..labels.dom.len() {
+            m.insert(self.user.doms[i].clone(), it.next().expect("set for domain label"));
+        }
+        let mut labels = labels;
+        labels.props = self.props.clone();
+        NetCtx {
+            b: self.b.clone(),
+            user: self.user.clone(),
+            mini: self.mini.clone(),
+            labels,
+            label_desc: desc.to_string(),
+            sets: m,
+            props: self.props.clone(),
+            canon: self.canon.clone(),
+            canon_col_vals: self.canon_col_vals.clone(),
+        }
+    }
+
     pub fn nprops(&self) -> u8 {
         self.props.len() as u8
     }
